@@ -44,10 +44,10 @@ theorem withThen_correct (o : List Nat) (c : CObj) (body : GenM Unit) (semb : St
     | true =>
       rw [hm] at hj
       obtain ⟨σ2, hs2, hsem⟩ := hrunb σ1
-      exact ⟨σ2, JumpRun.join hj (fun _ => hs2) (fun h => by cases h), σ1, hk', by simpa using hsem⟩
+      exact ⟨σ2, JumpRun.join hj (fun _ => hs2) (fun h => by cases h), σ1, hk', by first | (simp only [hm]; simpa using hsem) | simpa using hsem⟩
     | false =>
       rw [hm] at hj
-      exact ⟨σ1, JumpRun.join hj (fun h => by cases h) (fun _ => rfl), σ1, hk', by simpa using Keep.refl o σ1⟩
+      exact ⟨σ1, JumpRun.join hj (fun h => by cases h) (fun _ => rfl), σ1, hk', by simp only [hm]; simpa using Keep.refl o σ1⟩
 
 theorem elseGeneric_of_notBits {c : CObj} (h : c.isBits = false) (p : Pend) : elseEnter c p = elseGeneric p := by
   cases c <;> simp [CObj.isBits] at h <;> rfl
@@ -59,7 +59,7 @@ theorem withElse_correct (o : List Nat) (c : CObj) (body els : GenM Unit) (semb 
       (fun σ σ' => ∃ σ1, Keep o σ σ1 ∧ (if c.mtruth σ then semb σ1 σ' else seme σ1 σ')) o := by
   intro g g' hsub h
   unfold withElse at h
-  rw [elseGeneric_of_notBits hnb] at h
+  simp only [elseGeneric_of_notBits hnb] at h
   rw [bind_ok] at h; obtain ⟨p, g1, hcmp, h⟩ := h
   rw [bind_ok] at h; obtain ⟨u, g2, hbody, h⟩ := h
   rw [bind_ok] at h; obtain ⟨p1, g3, htg, h⟩ := h
@@ -107,7 +107,7 @@ theorem withElse_correct (o : List Nat) (c : CObj) (body els : GenM Unit) (semb 
   rw [bind_ok] at hexit; obtain ⟨n, g5a, hn, hexit⟩ := hexit
   rw [bind_ok] at hexit; obtain ⟨u4, g5b, hset, hexit⟩ := hexit
   rw [bind_ok] at hexit; obtain ⟨os, g5c, hos, hexit⟩ := hexit
-  rw [bind_ok] at hexit; obtain ⟨u5, g5d, hown, hexit⟩ := hexit
+  erw [bind_ok] at hexit; obtain ⟨u5, g5d, hown, hexit⟩ := hexit
   rw [curLen_ok] at hn; rw [setSlot_ok] at hset; rw [getOwners_ok] at hos
   cases hn; cases hset; cases hos
   cases hown
@@ -115,17 +115,19 @@ theorem withElse_correct (o : List Nat) (c : CObj) (body els : GenM Unit) (semb 
   rw [pure_ok] at hexit; cases hexit
   simp only []
   have hlf : (segf (some (g2.code.length + 1))).length = (segf none).length := hlen _
+  have hl4 : g4.code.length = g3.code.length + 1 := by
+    have hB' := hlen (some g2.code.length)
+    rw [hcode4, hcode3]; simp only [List.length_append, List.length_cons, List.length_nil]; omega
   have hl5 : g5.code.length = g3.code.length + 1 + sege.length := by
-    rw [hce, hcode4]; simp [hlf, hl3, hl2, hl1]; omega
+    rw [hce, List.length_append, hl4]
   refine ⟨?_, by simp [hse, r2, t2, hsb, CS.stack],
     segf (some (g2.code.length + 1)) ++ segb ++ [⟨Consts.op_JMP, 0, 0, (sege.length : Int), 0⟩] ++ sege, ?_, ?_⟩
   · intro n hn
     exact mem_inter.mpr ⟨hoe n (hsupe n hn), hp1own n hn⟩
-  · simp only []
-    have e1 : g5.code = g.code ++ (segf (some (g2.code.length + 1)) ++ segb ++ [hole]) ++ sege := by
+  · have e1 : g5.code = g.code ++ (segf (some (g2.code.length + 1)) ++ segb ++ [hole]) ++ sege := by
       rw [hce, hcode4]; simp
     have e2 : g3.code.length = g.code.length + (segf (some (g2.code.length + 1)) ++ segb).length := by
-      rw [hl3, hl2, hl1]; simp [hlf]; omega
+      simp only [List.length_append]; omega
     have e3 : ((g5.code.length : Int) - g3.code.length - 1) = sege.length := by rw [hl5]; omega
     rw [e3, e1, e2, set_mid g.code _ sege _ _ (by simp), set_last]
     simp
@@ -133,17 +135,17 @@ theorem withElse_correct (o : List Nat) (c : CObj) (body els : GenM Unit) (semb 
     obtain ⟨σ1, hj, hk⟩ := hrun (g2.code.length + 1) (by omega) σ
     have e : g2.code.length + 1 - g.code.length
         = (segf (some (g2.code.length + 1))).length + (segb ++ [(⟨Consts.op_JMP, 0, 0, (sege.length : Int), 0⟩ : Insn)]).length := by
-      rw [hlf]; simp; omega
+      rw [hlf]; simp only [List.length_append, List.length_cons, List.length_nil]; omega
     rw [e] at hj
     have hk' : Keep o σ σ1 := hk.mono hsub
     cases hm : c.mtruth σ with
     | true =>
       rw [hm] at hj
       obtain ⟨σ2, hs2, hsem⟩ := hrunb σ1
-      refine ⟨σ2, ?_, σ1, hk', by simpa using hsem⟩
+      refine ⟨σ2, ?_, σ1, hk', by first | (simp only [hm]; simpa using hsem) | simpa using hsem⟩
       have hja : JumpRun [(⟨Consts.op_JMP, 0, 0, (sege.length : Int), 0⟩ : Insn)]
           ([(⟨Consts.op_JMP, 0, 0, (sege.length : Int), 0⟩ : Insn)].length + sege.length) σ2 σ2 true :=
-        jumpRun_ja _ _ σ2 rfl (by simp) (by simp)
+        jumpRun_ja _ _ σ2 rfl (by simp) (by simp only [List.length_cons, List.length_nil]; omega)
       have hskip : SegRun ([(⟨Consts.op_JMP, 0, 0, (sege.length : Int), 0⟩ : Insn)] ++ sege) σ2 σ2 :=
         JumpRun.join hja (fun h => by cases h) (fun _ => rfl)
       have := (SegRun.append (SegRun.append hj.toSeg hs2) hskip)
@@ -151,7 +153,7 @@ theorem withElse_correct (o : List Nat) (c : CObj) (body els : GenM Unit) (semb 
     | false =>
       rw [hm] at hj
       obtain ⟨σ3, hs3, hsem⟩ := hrune σ1
-      refine ⟨σ3, ?_, σ1, hk', by simpa using hsem⟩
+      refine ⟨σ3, ?_, σ1, hk', by first | (simp only [hm]; simpa using hsem) | simpa using hsem⟩
       have := JumpRun.over hj hs3
       simpa [List.append_assoc] using this
 
